@@ -525,8 +525,11 @@ class Monitor:
             cls_ = "requant"
             rr = fp.unwrap_param(r)
             sc = oracles.plain(fp.inner(rr)[0]["_scale"]).to(F64)
-            if sc.numel() != 1 and sc.ndim == A.ndim:
-                sc = sc.expand_as(A)
+            if sc.numel() != 1:
+                try:
+                    sc = sc.expand_as(A) if sc.ndim == A.ndim else torch.broadcast_to(sc, A.shape)
+                except RuntimeError:
+                    sc = sc.abs().max()  # grouped low-bit scales: the coarsest group step bounds every element's step
             fam = getattr(rr.qtype, "dtype", torch.int8)
             if fam in (torch.float8_e4m3fn, torch.float8_e5m2):
                 step = sc.abs() * num.ulp(B / sc, fam)
@@ -665,6 +668,23 @@ class Monitor:
                 # + rounding of the dequantized operands themselves in the working dtype (the quantized kernels use
                 # the unrounded scale*code products): 2*eps(wd) per term of the dot product
                 tol = num.dot_bound(ref, absdot, bias_abs, K, wd) + 2 * num.eps(wd) * absdot
+                # ... and, below the working dtype's normal range, that rounding is absolute (half a subnormal step per
+                # dequantized element: code 2**-4 times a float16 scale of 2e-5 is off by 2 %), while the kernels
+                # multiply the codes by unrounded float32 scales
+                try:
+                    half_sub = 0.5 * num.smallest_subnormal(wd)
+                    if name == "conv2d":
+                        ones = [torch.ones_like(aa[0]), torch.ones_like(aa[1])]
+                        sub = torch.conv2d(ones[0], aa[1], *aa[2:], **kk) + torch.conv2d(aa[0], ones[1], *aa[2:], **kk)
+                    elif name == "linear":
+                        sub = torch.nn.functional.linear(torch.ones_like(x), w.abs()) + torch.nn.functional.linear(x.abs(), torch.ones_like(w))
+                    elif name == "inner":
+                        sub = torch.inner(torch.ones_like(x), w.abs()) + torch.inner(x.abs(), torch.ones_like(w))
+                    else:
+                        sub = torch.matmul(torch.ones_like(x), w.abs()) + torch.matmul(x.abs(), torch.ones_like(w))
+                    tol = tol + half_sub * sub
+                except Exception:
+                    pass
                 return tol, ref
         except Exception:
             return None
